@@ -113,4 +113,37 @@ example : Balanced ([.pop, .snapshot, .pop, .pop, .push 7, .restore, .snapshot, 
   .pop (@Balanced.abort _ [.pop, .pop, .push 7] _ (.pop (.pop (.push 7 .nil)))
     (@Balanced.commit _ [.push 8] _ (.push 8 .nil) (.peek .nil)))
 
+theorem naive_run_out_length (n : Naive α) (ops : List (Op α)) :
+    (Naive.run n ops).2.length = ops.length := by
+  induction ops generalizing n with
+  | nil => rfl
+  | cons op ops ih => simp [Naive.run, ih]
+
+/-- On the specification an aborted transaction restores the *whole* state, saved copies included. -/
+theorem naive_abort_state (n : Naive α) (b : List (Op α)) (hb : Balanced b) :
+    (Naive.run n (.snapshot :: b ++ [.restore])).1 = n := by
+  have e : (.snapshot :: b ++ [.restore] : List (Op α)) = (.snapshot :: b) ++ [.restore] := rfl
+  rw [e, naive_run_append]
+  have h1 := naive_balanced_saved b hb { cur := n.cur, saved := n.cur :: n.saved }
+  simp only [Naive.run, Naive.step]
+  rw [h1]
+
+/-- **An aborted transaction is invisible to every future.** For every prefix history `h`, balanced
+body `b` and continuation `k` (arbitrary: it may restore or clear snapshots opened in `h`), running
+`k` after `h; snapshot; b; restore` does not panic, returns from every `pop`/`peek` of `k` what it
+returns after `h` alone, and ends with the same contents. -/
+theorem transaction_abort_future (h b k : List (Op α)) (hb : Balanced b) :
+    ∃ s s' oh ot ok, run Stk.new (h ++ k) = some (s, oh ++ ok) ∧
+      run Stk.new (h ++ (.snapshot :: b ++ [.restore]) ++ k) = some (s', oh ++ ot ++ ok) ∧
+      oh.length = h.length ∧ ot.length = b.length + 2 ∧ ok.length = k.length ∧
+      s'.cache = s.cache := by
+  obtain ⟨s, hs, hc⟩ := run_refines (h ++ k)
+  obtain ⟨s', hs', hc'⟩ := run_refines (h ++ (.snapshot :: b ++ [.restore]) ++ k)
+  rw [naive_run_append] at hs hc
+  rw [naive_run_append, naive_run_append] at hs' hc'
+  rw [naive_abort_state _ b hb] at hs' hc'
+  refine ⟨s, s', _, _, _, hs, hs', naive_run_out_length _ _, ?_, naive_run_out_length _ _, ?_⟩
+  · rw [naive_run_out_length]; simp
+  · rw [hc, hc']
+
 end PestModel.C11
